@@ -995,6 +995,13 @@ def corpus_sessions():
          'calls': ['unblind', 'bkg', 'unblind', 'trial', 'unblind'], 'mean_sig': 3},
         {'cfg': {'seed': 8, 'ds': [dsc(bkg='comp', scr='coretime', presel='mask'), dsc(scr='seasonal')], 'valid_range': False},
          'calls': ['trial', 'unblind', 'bkg', 'sig', 'init', 'eval'], 'mean_sig': 5},
+        # every MC based method WITHOUT a scrambler (seeded C07-1: the composite method then worked on data.mc itself)
+        {'cfg': {'seed': 9, 'ds': [dsc(bkg='comp', scr=None, presel=None), dsc(bkg='mc', scr=None, presel='all')],
+                 'valid_range': False},
+         'calls': ['bkg', 'trial', 'bkg', 'unblind'], 'mean_sig': 2},
+        {'cfg': {'seed': 10, 'ds': [dsc(bkg='comp', scr=None, presel='mask'), dsc(bkg='comp', scr='uniform', presel='all')],
+                 'valid_range': False},
+         'calls': ['bkg', 'bkg', 'sig', 'init'], 'mean_sig': 3},
     ]
 
 
@@ -1208,7 +1215,8 @@ def run_sessions(ctx, sessions, tag):
         return
     # one coqc per 30 sessions, 6 at a time (a single 400-term file is slow to print)
     import concurrent.futures
-    chunks = [exprs[j:j + 30] for j in range(0, len(exprs), 30)]
+    csz = 6 if len(exprs) <= 24 else 30
+    chunks = [exprs[j:j + csz] for j in range(0, len(exprs), csz)]
     try:
         with concurrent.futures.ThreadPoolExecutor(max_workers=6) as ex_:
             parts = list(ex_.map(lambda jc: common.coq_eval(f'c07{tag}{jc[0]}', IMPORTS, jc[1], timeout=900),
@@ -1222,33 +1230,30 @@ def run_sessions(ctx, sessions, tag):
 
 
 def run(ctx):
+    import threading
     rng = ctx.rng
-    # 1. float32 narrowing at the range limits (stub RNG)
-    exprs, impl, cases = narrowing_probe(ctx)
-    if ctx.model_ok:
-        try:
-            vals = common.coq_eval('c07n', IMPORTS, exprs)
-            for c, a, v in zip(cases, impl, vals):
-                ctx.corr_cases += 1
-                if list(v) != a:
-                    ctx.disagree('alias.ura_value', c, a, list(v), detail='narrowed/clipped right ascensions differ')
-        except RuntimeError as ex:
-            ctx.broken.append({'kind': 'model-eval', 'error': str(ex)[:1500]})
-    # 1b. construction of the seasonal scrambling method
-    exprs, impl, cases = seasonal_probe(ctx)
-    if ctx.model_ok:
-        try:
-            vals = common.coq_eval('c07p', IMPORTS, exprs)
-            for c, a, v in zip(cases, impl, vals):
-                ctx.corr_cases += 1
-                if [list(x) for x in v] != a:
-                    ctx.disagree('alias.seasonal_masks', c, a, [list(x) for x in v], detail='run masks differ')
-        except RuntimeError as ex:
-            ctx.broken.append({'kind': 'model-eval', 'error': str(ex)[:1500]})
-    # 1c. RA write-back of the time based scrambling methods
+    # 1. probes (implementation side now, model side evaluated in the background while the sessions run):
+    #    float32 narrowing at the range limits (stub RNG), construction of the seasonal scrambling method,
+    #    RA write-back of the time based methods, get_selection / broadcast semantics of the table
+    jobs = [('alias.ura_value', 'narrowed/clipped right ascensions differ', lambda v: list(v)) + narrowing_probe(ctx),
+            ('alias.seasonal_masks', 'run masks differ', lambda v: [list(x) for x in v]) + seasonal_probe(ctx)]
+    for extra in EXTRA_PROBES:
+        jobs.append(extra(ctx))
     time_ra_probe(ctx)
+    box = {}
+
+    def eval_probes():
+        try:
+            allx = [e for j in jobs for e in j[3]]
+            box['vals'] = common.coq_eval('c07p', IMPORTS, allx)
+        except RuntimeError as ex:
+            box['err'] = str(ex)[:1500]
+    th = None
+    if ctx.model_ok:
+        th = threading.Thread(target=eval_probes)
+        th.start()
     # 2. sessions
-    n = ctx.budget(20, 360)
+    n = ctx.budget(16, 360)
     sessions = corpus_sessions()
     i = 0
     while len(sessions) < n:
@@ -1257,6 +1262,156 @@ def run(ctx):
     ctx.sample({'calls': sessions[-1]['calls'], 'cfg': sessions[-1]['cfg']})
     ctx.sample({'calls': sessions[0]['calls'], 'cfg': 'corpus: unblind with index field and static data field'})
     run_sessions(ctx, sessions, 's')
+    if th is not None:
+        th.join()
+        if 'err' in box:
+            ctx.broken.append({'kind': 'model-eval', 'error': box['err']})
+        else:
+            k = 0
+            for (site, det, canon, exprs, impl, cases) in jobs:
+                for c, a in zip(cases, impl):
+                    v = box['vals'][k]
+                    k += 1
+                    ctx.corr_cases += 1
+                    try:
+                        mv = canon(v)
+                    except Exception as ex:   # noqa: BLE001
+                        mv = ['unparsed', repr(v)[:200], str(ex)]
+                    if mv != a:
+                        ctx.disagree(site, c, a, mv, detail=det)
+
+
+
+# ---------------------------------------------------------------------------- probe of the table operations
+TP_FIELDS = ['ra', 'dec', 'time', 'azi', 'run', 'user_q']
+TP_DT = {'ra': np.float32, 'dec': np.float64, 'time': np.float64, 'azi': np.float32, 'run': np.int64, 'user_q': np.int16}
+
+
+def table_probe(ctx):
+    """DataFieldRecordArray used directly: get_selection with every index kind (single row, contiguous rows, empty,
+    full / partial mask, negative, out of range, wrong mask length), copy (incl. a length-1 column that np.copyto
+    broadcasts and a column of wrong length), set_selection (length-1 source = broadcast, wrong length, missing field,
+    partial effects), append, sort, tidy_up, item assignment (new array / the array of another field); value views,
+    the np.shares_memory relation between all columns of all tables and the error kinds against the model"""
+    from skyllh.core.storage import DataFieldRecordArray as DFRA
+    rng = ctx.rng
+    exprs, impl, cases = [], [], []
+    n_cases = ctx.budget(14, 160)
+    for ci in range(n_cases):
+        tabs = []
+        nrow = rng.randint(3, 6)
+        for ti in range(3):
+            n = nrow if ti < 2 else rng.choice([1, 1, nrow, 2])
+            names = [f for f in TP_FIELDS if ti == 0 or rng.random() < 0.8] or ['ra']
+            tabs.append({f: [rng.randint(0, 40) for _ in range(n)] for f in names})
+        # an inconsistent table: one column of length 1 (broadcast by copy) or of a wrong length
+        if ci % 3 == 0:
+            f = rng.choice(list(tabs[1])[1:] or list(tabs[1]))
+            if f != list(tabs[1])[0]:
+                tabs[1][f] = [rng.randint(0, 40) for _ in range(rng.choice([1, 1, 2]))]
+        regs = []
+        for tb in tabs:
+            first = list(tb)[0]
+            t = DFRA({f: np.array([0] * len(tb[first]), dtype=TP_DT[f]) for f in tb}, copy=False)
+            for f in tb:
+                t._data_fields[f] = np.array(tb[f], dtype=TP_DT[f])
+            regs.append(t)
+        ops_txt, stats = [], []
+        kinds = ['sel1', 'selc', 'sele', 'maskall', 'mask', 'neg', 'oob', 'maskbad', 'copy', 'copyk', 'set', 'setb',
+                 'append', 'sort', 'tidy', 'setitem', 'alias', 'selall']
+        seq = [kinds[(ci + j) % len(kinds)] if j < 3 else rng.choice(kinds) for j in range(rng.randint(4, 8))]
+        for kd in seq:
+            r = rng.randrange(len(regs))
+            n = len(regs[r])
+            ctx.count('top:' + kd)
+            try:
+                if kd in ('sel1', 'selc', 'sele', 'neg', 'oob', 'selall'):
+                    if kd == 'sel1':
+                        idx = [rng.randrange(max(n, 1))]
+                    elif kd == 'selc':
+                        a = rng.randrange(max(n, 1))
+                        idx = list(range(a, min(n, a + rng.randint(1, 3))))
+                    elif kd == 'sele':
+                        idx = []
+                    elif kd == 'neg':
+                        idx = [-1, 0]
+                    elif kd == 'selall':
+                        idx = list(range(n))
+                    else:
+                        idx = [0, n]
+                    ops_txt.append(f'TSel {nat(r)} (SIdx {zl(idx)})')
+                    regs.append(regs[r][np.array(idx, dtype=np.int64)])
+                elif kd in ('maskall', 'mask', 'maskbad'):
+                    m = [True] * n if kd == 'maskall' else [rng.random() < 0.5 for _ in range(n + (1 if kd == 'maskbad' else 0))]
+                    ops_txt.append(f'TSel {nat(r)} (SMask {bl(m)})')
+                    regs.append(regs[r][np.array(m, dtype=np.bool_)])
+                elif kd in ('copy', 'copyk'):
+                    keep = None if kd == 'copy' else [f for f in TP_FIELDS if rng.random() < 0.6]
+                    ops_txt.append(f"TCopy {nat(r)} {'None' if keep is None else '(Some ' + fl(keep) + ')'}")
+                    regs.append(regs[r].copy(keep_fields=keep))
+                elif kd in ('set', 'setb'):
+                    src = rng.randrange(len(regs))
+                    k = len(regs[src]) if kd == 'set' else rng.randint(0, n)
+                    idx = [rng.randrange(max(n, 1)) for _ in range(k)]
+                    ops_txt.append(f'TSet {nat(r)} (SIdx {zl(idx)}) {nat(src)}')
+                    regs[r][np.array(idx, dtype=np.int64)] = regs[src]
+                elif kd == 'append':
+                    src = rng.randrange(len(regs))
+                    ops_txt.append(f'TAppend {nat(r)} {nat(src)}')
+                    regs[r].append(regs[src])
+                elif kd == 'sort':
+                    f = rng.choice(TP_FIELDS)
+                    col = regs[r]._data_fields.get(f)
+                    perm = np.argsort(col).tolist() if col is not None else []      # the same call the code makes
+                    ops_txt.append(f'TSort {nat(r)} {nat(fid(f))} {zl(perm)}')
+                    regs[r].sort_by_field(f)
+                elif kd == 'tidy':
+                    keep = [f for f in TP_FIELDS if rng.random() < 0.7]
+                    ops_txt.append(f'TTidy {nat(r)} {fl(keep)}')
+                    regs[r].tidy_up(keep)
+                elif kd == 'setitem':
+                    f = rng.choice(TP_FIELDS + ['stat_a'])
+                    vals = [rng.randint(0, 40) for _ in range(n if rng.random() < 0.8 else n + 1)]
+                    ops_txt.append(f'TSetItem {nat(r)} {nat(fid(f))} {zl(vals)}')
+                    regs[r][f] = np.array(vals, dtype=np.float64)
+                else:
+                    f, g = rng.choice(TP_FIELDS + ['stat_b']), rng.choice(TP_FIELDS)
+                    ops_txt.append(f'TAlias {nat(r)} {nat(fid(f))} {nat(fid(g))}')
+                    regs[r][f] = regs[r][g]
+                stats.append('Ok')
+            except Exception as ex:   # noqa: BLE001 -- error kinds are compared
+                stats.append(type(ex).__name__)
+                ctx.count('top-raised:' + type(ex).__name__)
+        views = [([(fid(f), [int(v) for v in t[f].tolist()]) for f in t.field_name_list], len(t)) for t in regs]
+        ent = [((ri, fid(f)), t[f]) for ri, t in enumerate(regs) for f in t.field_name_list]
+        share = sorted((a[0], b[0]) for x, a in enumerate(ent) for b in ent[x + 1:]
+                       if a[1].size and b[1].size and np.shares_memory(a[1], b[1]))
+        case = {'kind': 'table', 'tables': tabs, 'ops': ops_txt}
+        ctx.case(case)
+        tterm = '[' + '; '.join('[' + '; '.join(f'({nat(fid(f))}, {zl(tb[f])})' for f in tb) + ']' for tb in tabs) + ']'
+        exprs.append(f"tops_obs {tterm} [{'; '.join(ops_txt)}]")
+        impl.append((stats, views, share))
+        cases.append(case)
+
+    def canon(v):
+        (ss, (mviews, mlocs)) = v
+        stats = ['Ok' if (x == ('Ok', 'tt') or x[0] == 'Ok') else x[1] for x in ss]
+        views, lens = [], {}
+        for ri, mv in enumerate(mviews):
+            cols, ln = mv[1]
+            vv = []
+            for (f, c) in cols:
+                vv.append((f, list(c[1])))
+                lens[(ri, f)] = len(c[1])
+            views.append((vv, ln))
+        ent = [((ri, f), b) for (ri, f, b) in mlocs]
+        share = sorted((a[0], b[0]) for x, a in enumerate(ent) for b in ent[x + 1:]
+                       if a[1] == b[1] and lens.get(a[0], 0) and lens.get(b[0], 0))
+        return (stats, views, share)
+    return ('alias.table_ops', 'DataFieldRecordArray operation differs from the table model', canon, exprs, impl, cases)
+
+
+EXTRA_PROBES = [table_probe]
 
 
 def replay(ctx, rp):
@@ -1267,6 +1422,9 @@ def replay(ctx, rp):
         return seasonal_probe(ctx)
     if c.get('kind') == 'time-ra':
         return time_ra_probe(ctx)
+    if c.get('kind') == 'table':
+        ctx.notes.append('table probe case: re-running the probes and the sessions')
+        return run(ctx)
     if 'calls' in c and 'cfg' in c:
         s = {'cfg': c['cfg'], 'calls': c['calls'], 'mean_sig': c.get('mean_sig', 3)}
         for d in s['cfg']['ds']:
